@@ -824,7 +824,14 @@ CrashProbe(p) ==
 \* ("repaired") a second check must return Ok(TRUE) with the same contents.
 CorruptProbe(p) ==
   /\ (p.open = "ok" /\ IsOk(p.integ)) =>
-        /\ \E i \in 1..Len(hist) : ObsMatches(p.obs, hist[i])
+        /\ \E i \in 1..Len(hist) :
+              /\ ObsMatches(p.obs, hist[i])
+              \* alterations inside the system tree: every persistent savepoint the certified database lists was restored
+              \* (on a copy of the altered image) - the result is exactly the state it captured, or the restore is refused
+              /\ "psp_restored" \in DOMAIN p =>
+                    \A j \in 1..Len(p.psp_restored) :
+                      LET x == p.psp_restored[j] IN
+                      "tables" \in DOMAIN x.obs => (x.id \in DOMAIN hist[i].psp /\ ObsTablesMatch(x.obs, hist[hist[i].psp[x.id].idx].t))
         /\ (p.integ.ok = FALSE) => (p.integ2 = Ok(TRUE) /\ p.same2)
   /\ UNCHANGED kvVars
 
